@@ -44,7 +44,7 @@ def cases(tier, seed):
         d = bool(rs.rand() < .5)
         recs.append((['er', n, float(rs.choice([.08, .15, .25, .4, .7])), d, int(rs.randint(1 << 30))], d))
     for i, (g, d) in enumerate(recs):
-        out.append({'g': g, 'directed': d, 'ws': seed * 100 + i, 'schemes': ['bin', 'int', 'dyad', 'real', 'neartie', 'bigint', 'logu']})
+        out.append({'g': g, 'directed': d, 'ws': seed * 100 + i, 'schemes': ['bin', 'int', 'dyad', 'real', 'neartie', 'bigint', 'logu', 'const']})
     out.append({'g': ['named', 'blob_chain', 20, 34, False], 'directed': False, 'ws': 1, 'schemes': ['bin']})
     for g in G.many_paths(200):
         out.append({'g': g, 'directed': g[-1] is True, 'ws': 1, 'schemes': ['bin']})
